@@ -158,6 +158,9 @@ def run(ctx, repo):
                                  'the part lists UNIONS/KINDS transcribed from the property statement']
     ctx.extra['exhaustive'] = True
     codes = 'athlib/codes.py'
+    for nm in sorted(P.ignorecase):
+        ctx.info('%s is compiled with re.IGNORECASE; composites are built from .pattern text, which drops the flag' % nm)
+        ctx.assume('re.IGNORECASE is modelled by closing character sets under the case partners of their explicit members')
 
     # ---- O1..O7 unions
     for comp, parts in UNIONS:
